@@ -397,22 +397,23 @@ def run(ctx):
         p = tlc.write_cfg(os.path.join(d, "built.cfg"), constants=consts, invariants=built_inv, properties=PROPERTIES,
                           constraints=["RecordWitnesses"], postcondition="PrintWitnesses", deadlock=False)
         jobs[label] = Job("graph", mod, p, d, timeout=1500, workers=1)
-    intended = list(intended_only(quick))
+    groups = []
     if present:            # without deviations the as-built model is the intended one
-        intended = [(n, c) for n, c in cfgs if not quick or broken & set(_relevant_inv(n))] + intended
-    for k in range(0, len(intended), 4):
-        part = intended[k:k + 4]
+        groups.append([(n, c) for n, c in cfgs if not quick or broken & set(_relevant_inv(n))])
+    only = list(intended_only(quick))
+    groups += [only[:3], only[3:]] if len(only) > 3 else [only]
+    for k, part in enumerate(g for g in groups if g):
         label = "intended: " + ", ".join(n for n, _ in part)
         d = workdir("intended_%d" % k)
         mod, consts = ce.tla_constants([c for _, c in part], ALL_DEV, d)
         p = tlc.write_cfg(os.path.join(d, "intended.cfg"), constants=consts, invariants=INVARIANTS, properties=PROPERTIES,
                           deadlock=False)
-        jobs["intended", label] = Job("check", mod, p, d, timeout=2400, workers=4 if quick else 6)
+        jobs["intended", label] = Job("check", mod, p, d, timeout=2400, workers=4 if quick else 5)
 
     # ---- 4a. meanwhile: record random runs of the real objects
     tconsts = dict(C(kinds=ALL_KINDS, targets=("ks", "ks.t", "ks.f(int)"), func=("ks.f(int)",), ev=4, ring=2, faults=3, beats=2),
                    Fixed=fixed_built)
-    n_tr = 150 if quick else 2500
+    n_tr = 150 if quick else 2000
     t0 = time.time()
     traces, after_bad = [], []
     for i in range(n_tr):
@@ -480,7 +481,7 @@ def run(ctx):
             if missing:
                 raise tlc.MachineryError("vacuity witnesses not reached in any configuration: %s" % missing)
         # thorough: the largest graphs are replayed as far as the time budget allows
-        deadline = 10 ** 12 if quick else max(ctx.t0 + 500.0, time.time() + 150.0)
+        deadline = 10 ** 12 if quick else max(ctx.t0 + 500.0, time.time() + 240.0)
         workers = replay_workers()
         used_workers.append(workers)
         walks = _covering_walks(edges, init)
